@@ -67,6 +67,8 @@ CSS_CALLBACK = {
                  "implies(token_type == 'blockEnd', delimiter == start and end == start + 1 and source[start] == '}')",
                  # a value ends at `;`, at the `}` that closes the block, or with the source
                  "implies(token_type == 'propertyValue' and delimiter != -1, source[delimiter] == ';' or source[delimiter] == '}')",
+                 # names and values end before their delimiter character
+                 "implies(token_type == 'propertyName' or token_type == 'propertyValue', delimiter == -1 or end <= delimiter)",
                  # tokens come in document order: nothing starts before the previous token (or its delimiter) ended
                  'g_last <= start',
                  # only the token that ends with the source has no delimiter: nothing is reported after it
@@ -170,32 +172,50 @@ define('match_ok', ['m', 'n'],
        "and (m.type != 'property' or m.body_start <= m.body_end)")
 
 CB_PARAMS = {'token_type': 'str', 'start': 'int', 'end': 'int', 'delimiter': 'int'}
-CB_REQ = ['0 <= start', 'start <= end', 'end <= len(source)',
-          'delimiter == -1 or (0 <= delimiter and delimiter < len(source))',
-          'delimiter == -1 or end <= delimiter + 1']
+# what scan() promises about each token (its callback contract); the closures rely on nothing else
+CB_REQ = list(CSS_CALLBACK['requires'])
+CB_GHOST = list(CSS_CALLBACK['ghost_update'])
+GHOSTS = {'g_last': 'int', 'g_final': 'bool', 'g_delim': 'int', 'g_prev': 'str'}
+# a selector waiting on the stack: [start, end, position of its `{`]; the `{` lies before anything reported later
+define('sel_open', ['t', 'source', 'g_last'],
+       "tok_ok(t, len(source)) and 0 <= t[2] and source[t[2]] == '{' and t[2] <= g_last and t[0] <= t[2] + 1")
+# a rule spans from its selector to its closing brace with the body between the braces; a declaration spans from
+# its name to its terminator with the value as body; both strictly contain the position
+define('match_exact', ['m', 'source', 'pos'],
+       "m.start < pos and pos < m.end and (m.type == 'selector' or m.type == 'property') and "
+       'm.body_start is not None and m.body_end is not None and '
+       'm.start <= m.body_start and m.body_start <= m.body_end and m.body_end <= m.end and '
+       "(m.type != 'selector' or (m.body_end + 1 == m.end and source[m.body_start - 1] == '{' and source[m.body_end] == '}'))")
 
 MATCH_CAP = {'pool': 'list[list[int]]', 'stack': 'list[list[int]]', 'result': 'list[MatchResult|None]',
-             'pending_property': 'list[list[int]|None]', 'pos': 'int', 'source': 'str'}
+             'pending_property': 'list[list[int]|None]', 'pos': 'int', 'source': 'str', **GHOSTS}
 MATCH_INV = ['len(result) == 1', 'len(pending_property) == 1', 'pool is not stack',
              # ownership: everything the closure writes was allocated by this call of match()
              'owned(pool) and owned(stack) and owned(result) and owned(pending_property)',
              'forall(0, len(stack), lambda i: owned(stack[i]))', 'forall(0, len(pool), lambda i: owned(pool[i]))',
              'pending_property[0] is None or owned(pending_property[0])',
              'result[0] is None or owned(result[0])',
-             'forall(0, len(stack), lambda i: tok_ok(stack[i], len(source)))',
+             # pooling discipline: a token list is in at most one place (a recycled list must not be a waiting selector)
+             'forall(0, len(pool), lambda i: forall(0, i, lambda j: pool[i] is not pool[j]))',
+             'forall(0, len(stack), lambda i: forall(0, len(pool), lambda j: stack[i] is not pool[j]))',
+             'pending_property[0] is None or forall(0, len(stack), lambda i: stack[i] is not pending_property[0])',
+             'pending_property[0] is None or forall(0, len(pool), lambda i: pool[i] is not pending_property[0])',
+             'forall(0, len(stack), lambda i: sel_open(stack[i], source, g_last))',
              'forall(0, len(pool), lambda i: len(pool[i]) == 3)',
-             'pending_property[0] is None or tok_ok(pending_property[0], len(source))',
-             'result[0] is None or match_ok(result[0], len(source))']
+             'pending_property[0] is None or (tok_ok(pending_property[0], len(source)) and pending_property[0][1] <= g_last)',
+             'result[0] is None or match_ok(result[0], len(source))',
+             'result[0] is None or match_exact(result[0], source, pos)']
 
 fn('emmet.css_matcher:match.<locals>.release_pending', inline=True, props=P)
 fn('emmet.css_matcher:match.<locals>.scan_callback', props=P,
    params=CB_PARAMS, returns='bool|None', captures=MATCH_CAP,
-   requires=CB_REQ, closure_invariant=MATCH_INV, modifies=['owned'])
+   requires=CB_REQ, closure_invariant=MATCH_INV, modifies=['owned'], ghost_update=CB_GHOST)
 
 fn('emmet.css_matcher:match', props=P,
    params={'source': 'str', 'pos': 'int'}, returns='MatchResult|None',
    requires=[],
-   ensures=['result is None or match_ok(result, len(source))'],
+   ensures=['result is None or match_ok(result, len(source))',
+            'result is None or match_exact(result, source, pos)'],
    modifies=[], allocates=True,
    locals={'pool': 'list[list[int]]', 'stack': 'list[list[int]]', 'result': 'list[MatchResult|None]',
            'pending_property': 'list[list[int]|None]'})
